@@ -510,6 +510,8 @@ theorem ledger_step (s : State) (e : Event) (h : Ledger s)
   | retry ch ok => exact (same_retryOpen s ch ok).ledger h
   | settle r => exact ledger_settle s r hz h
   | «continue» ex => exact (same_continueGame s ex).ledger h
+  | contReset => exact (same_continueGame s true).ledger h
+  | tick ex => exact (same_nextMove s ex).ledger h
 
 theorem ledger_run (s : State) (evs : List Event) (h : Ledger s) (hz : ResultsConserve evs) : Ledger (run s evs) := by
   induction evs generalizing s with
